@@ -99,6 +99,15 @@ func sharedBuiltin(p any) bool { panic("spec only") }
 // isFresh(x): x is nil or was allocated after function entry.
 func isFresh(x any) bool { panic("spec only") }
 
+// allocated(p): p is non-nil and lies below the current allocation frontier (so anything allocated later differs from it).
+func allocated(p any) bool { panic("spec only") }
+
+// forallStr(p): p holds for every string (written `forallkey k: P` in clauses).  mapHas(m, k): k is a key of the
+// modelled map m.  rangeSeen(k): key k was already visited by the innermost range loop over a modelled map.
+func forallStr(p func(k string) bool) bool { panic("spec only") }
+func mapHas[K comparable, V any](m map[K]V, k K) bool { panic("spec only") }
+func rangeSeen(k string) bool { panic("spec only") }
+
 // ghostAssert(b) raises a proof obligation from ghost code.
 func ghostAssert(b bool) {}
 
@@ -637,9 +646,9 @@ func (*ParserData).unwindToLoop
   requires -(1<<40) < p.loopInfo[len(p.loopInfo)-1].blockDepth && p.loopInfo[len(p.loopInfo)-1].blockDepth < 1<<40 && -(1<<40) < p.loopInfo[len(p.loopInfo)-1].fstrDepth && p.loopInfo[len(p.loopInfo)-1].fstrDepth < 1<<40
   ensures [C08] p.blockDepth == old(p.blockDepth) && p.fstrDepth == old(p.fstrDepth) && len(p.loopInfo) == old(len(p.loopInfo))
   ensures p.codeIndex <= len(p.code) && len(p.code) >= 1 && p.codeIndex >= old(p.codeIndex)
-  ensures [C08] !p.codeOverflow ==> p.codeIndex == old(p.codeIndex) + specMax0(old(p.blockDepth)-old(p.loopInfo[len(p.loopInfo)-1].blockDepth)) + specMax0(old(p.fstrDepth)-old(p.loopInfo[len(p.loopInfo)-1].fstrDepth))
+  ensures [C08 C13] !p.codeOverflow ==> p.codeIndex == old(p.codeIndex) + specMax0(old(p.blockDepth)-old(p.loopInfo[len(p.loopInfo)-1].blockDepth)) + specMax0(old(p.fstrDepth)-old(p.loopInfo[len(p.loopInfo)-1].fstrDepth))
   ensures [C08] !p.codeOverflow ==> forall k in [old(p.codeIndex), old(p.codeIndex) + specMax0(old(p.blockDepth)-old(p.loopInfo[len(p.loopInfo)-1].blockDepth))): p.code[k].T == typeBlockPop
-  ensures [C08] !p.codeOverflow ==> forall k in [old(p.codeIndex) + specMax0(old(p.blockDepth)-old(p.loopInfo[len(p.loopInfo)-1].blockDepth)), p.codeIndex): p.code[k].T == typeFStringBlockPop
+  ensures [C08 C13] !p.codeOverflow ==> forall k in [old(p.codeIndex) + specMax0(old(p.blockDepth)-old(p.loopInfo[len(p.loopInfo)-1].blockDepth)), p.codeIndex): p.code[k].T == typeFStringBlockPop
   ensures [C07] old(p.codeOverflow) ==> p.codeOverflow
   ghost var g0 int = 0
   ghost at entry: g0 = p.codeIndex
@@ -665,7 +674,7 @@ func (*ParserData).LoopBegin
   requires e != nil && e.loopLayer < 1<<40
   ensures [C08] len(e.loopInfo) == old(len(e.loopInfo)) + 1 && e.loopLayer == old(e.loopLayer) + 1
   ensures [C08] e.loopInfo[len(e.loopInfo)-1].continueIndex == len(e.continueStack) && e.loopInfo[len(e.loopInfo)-1].breakIndex == len(e.breakStack)
-  ensures [C08] e.loopInfo[len(e.loopInfo)-1].blockDepth == e.blockDepth && e.loopInfo[len(e.loopInfo)-1].fstrDepth == e.fstrDepth
+  ensures [C08 C13] e.loopInfo[len(e.loopInfo)-1].blockDepth == e.blockDepth && e.loopInfo[len(e.loopInfo)-1].fstrDepth == e.fstrDepth
   ensures e.blockDepth == old(e.blockDepth) && e.fstrDepth == old(e.fstrDepth)
 
 func (*ParserData).BreakPush
@@ -1202,9 +1211,12 @@ func (*VMValue).ArrayRepeatTimesEx
   ensures [C02] times.TypeId != VMTypeInt ==> result == nil && ctx.Error == old(ctx.Error)
   ensures [C02] times.TypeId == VMTypeInt && (old(times.Value.(IntType)) < 0 || old(times.Value.(IntType)) > 512 || old(IntType(len(v.Value.(*ArrayData).List))) * old(times.Value.(IntType)) > 512) ==> result == nil && ctx.Error != nil
   ensures [C02] times.TypeId == VMTypeInt && old(times.Value.(IntType)) >= 0 && old(times.Value.(IntType)) <= 512 && old(IntType(len(v.Value.(*ArrayData).List))) * old(times.Value.(IntType)) <= 512 ==> result != nil && result.TypeId == VMTypeArray && IntType(len(result.Value.(*ArrayData).List)) == old(IntType(len(v.Value.(*ArrayData).List))) * old(times.Value.(IntType)) && ctx.Error == old(ctx.Error)
+  ensures [C02 C09] result != nil ==> forall k in [0, len(result.Value.(*ArrayData).List)): result.Value.(*ArrayData).List[k] != nil && isFresh(result.Value.(*ArrayData).List[k])
+  ensures [C02 C09] result != nil ==> forall a in [0, len(result.Value.(*ArrayData).List)): forall b in [0, a): result.Value.(*ArrayData).List[a] != result.Value.(*ArrayData).List[b]
   loop 1
     invariant 0 <= i && i <= length && IntType(len(arr)) == length && isFresh(arr) && (length > 0 ==> len(ad.List) > 0 && arr != nil)
-    invariant forall k in [0, int(i)): arr[k] != nil
+    invariant forall k in [0, int(i)): arr[k] != nil && isFresh(arr[k]) && allocated(arr[k])
+    invariant forall a in [0, int(i)): forall b in [0, a): arr[a] != arr[b]
     decreases int(length - i)
 
 func (*VMValue).OpMultiply
